@@ -51,6 +51,7 @@ RecState::RecState() {
         else if (key.rfind("sens_", 0) == 0 || key == "ray" || key == "dray") sens[key] = parse_dbls(is);
         else if (key == "iiscong") { int g = -1; is >> g; have_iiscon = true; iiscon_g[g] = parse_ints(is); }
         else if (key == "throw") is >> throw_in_solve;
+        else if (key == "altsol") is >> n_altsol;
       }
       std::fclose(f);
     }
